@@ -27,6 +27,9 @@ claimed={
 "C11":dict(engine=E1, tech=T_E1+" with dynamic partial-order reduction",
   text="Polling discipline: the C03 executions on polling plus slow-upload scenarios (a data request whose body is still being uploaded when a second one arrives); per request: handler returned (a request left blocked after the session closed is a violation), at most one WriteHeader, a response written unless the peer aborted, second poll while one is outstanding refused with 400, data request during another one's upload refused with 400 and session closed with transport error, ok only after the payload's message events in histories where the session stays open.",
   note="Overlap is asserted only where it is certain from the construction of the scenario (a poll held by the set-up; an upload held open on the virtual clock), never from submission order."),
+"C07":dict(engine=E1, tech=T_E1+" with dynamic partial-order reduction",
+  text="Heartbeat: revision-4 sessions on polling and websocket with (interval,timeout) in {(2,1),(3,2)} (thorough: +(2,3)) grid units; the client answers the k-th ping after every delay in {0..T+1, never} over 2 (thorough 3) ping cycles, optionally an unsolicited/duplicated pong at every grid instant, an application Send at the ping instant or at the deadline; revision-3 sessions with client pings at gaps {1, I+T-1, I+T, I+T+1}; every interleaving of the co-instant threads (timer goroutines, handler, client) up to 1 (thorough 2) preemptions (polling: 0/1). Oracle = reference timeline computed from the statement: instants of server pings and of the close are exact, reason ping timeout, ties (pong and deadline at the same instant) accepted in either order. Wrong-direction heartbeat on each revision/transport: exactly one close with transport error, no heartbeat event, a second session unaffected.",
+  note="Upgrade completion between a ping and its deadline is excluded as the statement says. Interval/timeout values are small grid multiples; the timers are the real utils.Timer on the virtual clock."),
 "C06":dict(engine=E2, tech=T_E2,
   text="Handshake: product of ping interval x ping timeout x max payload x 7 transport sets x allowUpgrades x allowEIO3 x initial packet {none,text,binary} x cookie, each server taking three consecutive handshakes over the admitted carriers (polling xhr/b64/jsonp, websocket) and revisions; oracle from the statement: one connection event and registry entry per handshake, open packet first with sid/intervals/maxPayload/upgrades-as-a-set, initial packet as first message of every session, Protocol()/payload format by revision, decoded with an independent codec.",
   note="WebTransport handshakes are exercised under C08/C09 scenarios, not here; option values outside the listed alphabets are not covered."),
